@@ -114,3 +114,5 @@ def run(chk):
                '(holds relation); direct aliases through variables, returns, fields, parameters and elements of '
                'shared containers are followed')
     chk.exhaustive = True
+    from . import memo as _memo
+    _memo.wire(chk, c, 'C19-M', None, 'the package')
